@@ -150,6 +150,25 @@ def union(ctx, cfg):
     ctx.check(u.check_alt(ka) is True and u.check_alt(kb) is True, "union-keeps-keys")
 
 
+def union_mismatch(ctx, cfg):
+    """'...or united with another filter' when the operands do NOT share a geometry: union() either refuses (None, as documented)
+    or the filter it returns still reports the keys of both operands - it never returns a filter that lost keys"""
+    env.setup(ctx, "bloom")
+    hf = lambda key, depth=1: [7, 11, 13, 17, 19, 23, 29, 31, 37, 41][:depth]  # noqa: E731
+    a = sym_bloom(ctx, cfg["ga"][0], cfg["ga"][1], "a.", hf)
+    b = sym_bloom(ctx, cfg["gb"][0], cfg["gb"][1], "b.", hf)
+    k = max(a.number_hashes, b.number_hashes)
+    top = 4 * a.number_bits * b.number_bits      # small hash values: the mismatched side reduces them by a modulus they are not decomposed for
+    ka = [ctx.hashval(f"ka{i}", a.number_bits, 0, top) for i in range(k)]
+    kb = [ctx.hashval(f"kb{i}", b.number_bits, 0, top) for i in range(k)]
+    ctx.assume(a.check_alt(ka) is True)
+    ctx.assume(b.check_alt(kb) is True)
+    env_math(ctx)
+    for x, y, tag in ((a, b, ""), (b, a, "-swapped")):
+        u = x.union(y)
+        ctx.check(u is None or (u.check_alt(ka) is True and u.check_alt(kb) is True), "union-mismatch-none-or-keeps-keys" + tag)
+
+
 def env_math(ctx):
     """estimate_elements() after union/intersection calls math.log on a symbolic popcount: stubbed here (C14 checks the formula)"""
     if ctx.sym:
@@ -225,7 +244,7 @@ def history(ctx, cfg):
 
 
 HARNESS = {"c01.step": step, "c01.decide": absent_stays_decidable, "c01.wrappers": wrappers, "c01.load": load,
-           "c01.union": union, "c01.expanding": expanding, "c01.history": history, "c01.expanding_load": expanding_load}
+           "c01.union": union, "c01.union_mismatch": union_mismatch, "c01.expanding": expanding, "c01.history": history, "c01.expanding_load": expanding_load}
 
 
 def jobs(tier):
@@ -253,6 +272,10 @@ def jobs(tier):
         for L in (1, 2):
             for rot in (False, True):
                 js.append({"h": "c01.expanding_load", "cfg": {"est": est, "fpr": fpr, "L": L, "rot": rot}, "opts": {"cost": L * est}})
+    # same byte length and hashes but a different number of bits; same bits, different hashes; different byte lengths
+    mism = [((2, .384), (2, .488)), ((3, .202), (3, .238)), ((4, .188), (5, .216)), ((1, .238), (2, .488)), ((1, .5), (3, .2)), ((4, .384), (5, .422))]
+    for ga, gb in mism + ([((10, .048), (10, .05))] if tier == "thorough" else []):
+        js.append({"h": "c01.union_mismatch", "cfg": {"ga": list(ga), "gb": list(gb)}, "opts": {"cost": ga[0] * 5}})
     if tier == "thorough":
         js.append({"h": "c01.load", "cfg": {"est": 10, "fpr": .05, "channel": "bytes"}})
         js.append({"h": "c01.union", "cfg": {"est": 10, "fpr": .05}})
